@@ -1,5 +1,5 @@
 SPECIFICATION Spec
-CONSTANT G <- GCubic
+CONSTANT G <- GHex
 CONSTANTS NMax = 3
  Met = {1, 2}
  EqualMetrics = TRUE
